@@ -459,5 +459,352 @@ theorem removeVictims_prob {p : Params} {k : Nat} :
       have := AL.length_erase_of_get? he
       omega
 
+/-! ### an insert that finds no room -/
+
+/-- Weights of the residents in recency order (front = least recently used). -/
+def probWeights (s : UState) : List Nat := s.prob.map (fun n => wOf s n.key)
+
+/-- Popularity estimates of the residents in recency order. -/
+def probFreqs (s : UState) : List Nat := s.prob.map (fOf s)
+
+/-- The node pushed for a candidate `k` by an insert into `s1` (the state after maintenance). -/
+def candNode (p : Params) (s1 : UState) (k : Nat) : AoNode :=
+  { id := s1.nextId, key := k, hash := p.hash k, ts := opTs p s1 }
+
+/-- The insert of a new key takes the `handle_insert` path. -/
+theorem insert_new_eq {p : Params} {s : UState} {k v : Nat}
+    (hnew : AL.get? (maintain p s).map k = none) :
+    insert p s k v =
+      handleInsert p { maintain p s with
+          map := AL.put (maintain p s).map k { val := v, weight := p.weigh k v } }
+        k (p.hash k) (p.weigh k v) (opTs p (maintain p s)) := by
+  unfold insert
+  dsimp only
+  rw [hnew]
+
+/-- An oversized candidate that finds no room is dropped; the state is the one left by the
+maintenance. -/
+theorem insert_toobig {p : Params} {s : UState} {k v : Nat}
+    (hnew : AL.get? (maintain p s).map k = none)
+    (hroom : hasEnoughCapacity p (p.weigh k v) (maintain p s).ws = false)
+    (hbig : tooBig p (p.weigh k v) = true) :
+    insert p s k v = maintain p s := by
+  rw [insert_new_eq hnew]
+  unfold handleInsert
+  dsimp only
+  rw [hroom, hbig]
+  simp only [Bool.false_eq_true, if_false, if_true]
+  exact state_restore hnew
+
+/-- Exact effect of the insert of a new, not oversized key that finds no room, in terms of the
+closed formula: admitted with the shortest sufficient LRU prefix as victims, or rejected
+with the state untouched. -/
+theorem insert_noroom {p : Params} (hq : NoQuirks p) {s : UState} (hi : InvU p s) (k v : Nat)
+    (hnew : AL.get? (maintain p s).map k = none)
+    (hroom : hasEnoughCapacity p (p.weigh k v) (maintain p s).ws = false)
+    (hbig : tooBig p (p.weigh k v) = false) :
+    (∀ n, shortestPre (p.weigh k v) (probWeights (maintain p s)) = some n →
+      (maintain p s).sk.frequency (p.hash k) > ((probFreqs (maintain p s)).take n).sum →
+      (∃ e, AL.get? (insert p s k v).map k = some e ∧ e.val = v ∧ e.weight = p.weigh k v) ∧
+      (∀ k', k' ≠ k → AL.get? (insert p s k v).map k' =
+        if k' ∈ ((maintain p s).prob.take n).map (·.key) then none
+        else AL.get? (maintain p s).map k') ∧
+      (insert p s k v).prob = (maintain p s).prob.drop n ++ [candNode p (maintain p s) k]) ∧
+    ((¬ ∃ n, shortestPre (p.weigh k v) (probWeights (maintain p s)) = some n ∧
+        (maintain p s).sk.frequency (p.hash k) > ((probFreqs (maintain p s)).take n).sum) →
+      insert p s k v = maintain p s) := by
+  obtain ⟨h1, _, _⟩ := maintain_spec hq hi
+  rw [insert_new_eq hnew]
+  generalize hs1 : maintain p s = s1 at *
+  generalize hent : ({ val := v, weight := p.weigh k v } : UEntry) = entry
+  have heao : entry.ao = none := by rw [← hent]
+  have hewo : entry.wo = none := by rw [← hent]
+  have hew : entry.weight = p.weigh k v := by rw [← hent]
+  have hev : entry.val = v := by rw [← hent]
+  have hsp := struct_put_pending (entry := entry) h1.struct hnew heao hewo
+  have hlen := AL.length_put_of_none entry hnew
+  have hwts2 : ∀ k' e', AL.get? (AL.put s1.map k entry) k' = some e' →
+      e'.weight = p.weigh k' e'.val := by
+    intro k' e2 h2
+    rw [AL.get?_put] at h2
+    by_cases hkk : k = k'
+    · subst hkk; simp at h2; subst h2; rw [hew, hev]
+    · simp [hkk] at h2; exact h1.counted.weights k' e2 h2
+  have hall : ∀ n ∈ s1.prob, ∃ e, AL.get? (AL.put s1.map k entry) n.key = some e := by
+    intro n hn
+    obtain ⟨e2, h2, _⟩ := hsp.aoBack n hn
+    exact ⟨e2, h2⟩
+  -- the weights and popularities seen by the loop are those of the residents
+  have hW : s1.prob.map (fun n => wOf { s1 with map := AL.put s1.map k entry } n.key) =
+      probWeights s1 := by
+    unfold probWeights
+    apply List.map_congr_left
+    intro n hn
+    have hne : k ≠ n.key := fun e => pending_no_node_ao hsp hn e.symm
+    simp only [wOf, AL.get?_put_ne entry hne]
+  have hF : s1.prob.map (fOf { s1 with map := AL.put s1.map k entry }) = probFreqs s1 := rfl
+  obtain ⟨hf, _⟩ := admitLoop_spec (p := p) (s := { s1 with map := AL.put s1.map k entry })
+    (cw := p.weigh k v) (cf := s1.sk.frequency (p.hash k)) hwts2 s1.prob {} hall rfl
+  obtain ⟨c1, c2⟩ := admitLoop_closed (p := p) (s := { s1 with map := AL.put s1.map k entry })
+    (cw := p.weigh k v) (cf := s1.sk.frequency (p.hash k)) hwts2 s1.prob hall
+  rw [hW, hF] at c1 c2
+  unfold handleInsert
+  dsimp only
+  rw [hroom, hbig]
+  simp only [Bool.false_eq_true, if_false]
+  unfold admitOrReject
+  dsimp only
+  simp only [hf, Bool.false_eq_true, if_false]
+  refine ⟨?_, ?_⟩
+  · intro n hn1 hn2
+    rw [if_pos (c1.mpr ⟨n, hn1, hn2⟩)]
+    obtain ⟨hvic, _, _⟩ := c2 n hn1 hn2
+    rw [hvic]
+    have hin : ∀ v' ∈ s1.prob.take n,
+        v' ∈ ({ s1 with map := AL.put s1.map k entry } : UState).prob :=
+      fun v' hv' => List.mem_of_mem_take hv'
+    have hnd : ((s1.prob.take n).map (·.id)).Nodup := by
+      have := h1.struct.probIds
+      rw [← List.take_append_drop n s1.prob, List.map_append] at this
+      exact (List.nodup_append.mp this).1
+    have hc : ({ s1 with map := AL.put s1.map k entry } : UState).ec + 1 =
+        ({ s1 with map := AL.put s1.map k entry } : UState).map.length := by
+      simp only; rw [hlen, h1.counted.ec]
+    obtain ⟨r1, _, _, _, _, r6, _, r8⟩ := removeVictims_spec (s1.prob.take n) _ hsp hin hnd hc
+    have rmap := removeVictims_map (s1.prob.take n) { s1 with map := AL.put s1.map k entry }
+    have rprob := removeVictims_prob (s1.prob.take n) { s1 with map := AL.put s1.map k entry }
+      (s1.prob.drop n) hsp (by simp) hc
+    obtain ⟨entry', hk', e', hv', hw', hmap, _, _, _, _, _, _, hprob⟩ :=
+      pushCandidate_spec (p.hash k) (opTs p s1) r1
+    have hk3 : AL.get? (removeVictims (s1.prob.take n)
+        { s1 with map := AL.put s1.map k entry }).map k = some entry := by
+      rw [r8]; simp [AL.get?_put_self]
+    rw [hk3] at hk'; cases hk'
+    obtain ⟨m1, m2, _, _⟩ := maybeEnableSketch_frame p
+      (let s4 := pushCandidate p (removeVictims (s1.prob.take n)
+          { s1 with map := AL.put s1.map k entry }) k (p.hash k) (opTs p s1)
+       let s5 := { s4 with ec := s4.ec + 1 }
+       let s6 := { s5 with ws := s5.ws - ((probWeights s1).take n).sum }
+       { s6 with ws := s6.ws + p.weigh k v })
+    have hvw := (c2 n hn1 hn2).2.1
+    rw [hvw]
+    dsimp only at m1 m2
+    rw [m1, m2, hmap, hprob, rprob, r6.nextId]
+    refine ⟨⟨e', AL.get?_put_self _ _ _, by rw [hv', hev], by rw [hw', hew]⟩, ?_, rfl⟩
+    intro k' hne
+    rw [AL.get?_put_ne _ (Ne.symm hne), rmap, get?_eraseKeys hsp.keysNodup]
+    simp only
+    rw [AL.get?_put_ne _ (Ne.symm hne)]
+  · intro hno
+    rw [if_neg (fun h => hno (c1.mp h))]
+    exact state_restore hnew
+
+/-- An insert of a new key that fits: the candidate's node goes to the back of the recency
+order and no resident is touched. -/
+theorem insert_hasroom {p : Params} (hq : NoQuirks p) {s : UState} (hi : InvU p s) (k v : Nat)
+    (hnew : AL.get? (maintain p s).map k = none)
+    (hfit : hasEnoughCapacity p (p.weigh k v) (maintain p s).ws = true) :
+    (∃ e, AL.get? (insert p s k v).map k = some e ∧ e.val = v ∧ e.weight = p.weigh k v) ∧
+    (∀ k', k' ≠ k → AL.get? (insert p s k v).map k' = AL.get? (maintain p s).map k') ∧
+    (insert p s k v).prob = (maintain p s).prob ++ [candNode p (maintain p s) k] := by
+  obtain ⟨h1, _, _⟩ := maintain_spec hq hi
+  rw [insert_new_eq hnew]
+  generalize hs1 : maintain p s = s1 at *
+  generalize hent : ({ val := v, weight := p.weigh k v } : UEntry) = entry
+  have heao : entry.ao = none := by rw [← hent]
+  have hewo : entry.wo = none := by rw [← hent]
+  have hew : entry.weight = p.weigh k v := by rw [← hent]
+  have hev : entry.val = v := by rw [← hent]
+  have hsp := struct_put_pending (p := p) (entry := entry) h1.struct hnew heao hewo
+  obtain ⟨entry', hk', e', hv', hw', hmap, _, _, _, _, _, _, hprob⟩ :=
+    pushCandidate_spec (p.hash k) (opTs p s1) hsp
+  simp only [AL.get?_put_self, Option.some.injEq] at hk'
+  subst hk'
+  unfold handleInsert
+  dsimp only
+  rw [if_pos hfit]
+  obtain ⟨m1, m2, _, _⟩ := maybeEnableSketch_frame p
+    (let s4 := pushCandidate p { s1 with map := AL.put s1.map k entry } k (p.hash k) (opTs p s1)
+     { s4 with ec := s4.ec + 1, ws := s4.ws + p.weigh k v })
+  dsimp only at m1 m2
+  rw [m1, m2, hmap, hprob]
+  refine ⟨⟨e', AL.get?_put_self _ _ _, by rw [hv', hev], by rw [hw', hew]⟩, ?_, rfl⟩
+  intro k' hne
+  rw [AL.get?_put_ne _ (Ne.symm hne), AL.get?_put_ne _ (Ne.symm hne)]
+
+/-! ### the exact effect of `evict_lru_entries` -/
+
+/-- The size-eviction loop removes the nodes at the front of the probation list one by one
+while the evicted weight is below the target and the batch is not exhausted: `m` nodes,
+`m = min fuel (shortest prefix covering the missing weight, or the whole list)`. -/
+theorem evictLruLoop_exact {p : Params} (wt : Nat → Nat) (fuel : Nat) :
+    ∀ (s : UState) (wte c w : Nat), Struct p s →
+      (∀ k e, AL.get? s.map k = some e → e.weight = wt k) →
+      (evictLruLoop fuel s wte c w).1.prob =
+        s.prob.drop (min fuel (prefLen (wte - w) (s.prob.map (fun n => wt n.key)))) ∧
+      (evictLruLoop fuel s wte c w).1.map =
+        eraseKeys s.map ((s.prob.take
+          (min fuel (prefLen (wte - w) (s.prob.map (fun n => wt n.key))))).map (·.key)) ∧
+      (evictLruLoop fuel s wte c w).2.1 =
+        c + min fuel (prefLen (wte - w) (s.prob.map (fun n => wt n.key))) ∧
+      (evictLruLoop fuel s wte c w).2.2 =
+        w + ((s.prob.take (min fuel (prefLen (wte - w) (s.prob.map (fun n => wt n.key))))).map
+          (fun n => wt n.key)).sum := by
+  induction fuel with
+  | zero => intro s wte c w _ _; simp [evictLruLoop, eraseKeys]
+  | succ fuel ih =>
+    intro s wte c w hs hwt
+    unfold evictLruLoop
+    by_cases hw : w ≥ wte
+    · have h0 : wte - w = 0 := by omega
+      simp [hw, h0, eraseKeys]
+    · simp only [hw, if_false]
+      cases hp : s.prob with
+      | nil => simp [prefLen_nil, eraseKeys, hp]
+      | cons n rest =>
+        simp only
+        obtain ⟨e, he, heao⟩ := hs.aoBack n (by rw [hp]; exact List.mem_cons_self)
+        simp only [he]
+        obtain ⟨hs', hto, id, n', hao, _, _, hprob⟩ := takeOut_spec hs he (by simp)
+        have hid : id = n.id := by rw [heao] at hao; exact (Option.some.inj hao).symm
+        have hprob' : (takeOut s n.key e).prob = rest := by
+          rw [hprob, hid, hp]; simp [eraseAo]
+        have hwt' : ∀ k e', AL.get? (takeOut s n.key e).map k = some e' → e'.weight = wt k :=
+          fun k e' h => hwt k e' (hto.shrinks.sub k e' h)
+        obtain ⟨i1, i2, i3, i4⟩ := ih (takeOut s n.key e) wte (c + 1) (w + e.weight) hs' hwt'
+        rw [hprob'] at i1 i2 i3 i4
+        have hne : wte - w ≠ 0 := by omega
+        have hew : e.weight = wt n.key := hwt n.key e he
+        have hm : min (fuel + 1) (prefLen (wte - w) ((n :: rest).map (fun n => wt n.key))) =
+            min fuel (prefLen (wte - (w + e.weight)) (rest.map (fun n => wt n.key))) + 1 := by
+          simp only [List.map_cons]
+          rw [prefLen_cons_pos hne, hew]
+          have : wte - w - wt n.key = wte - (w + wt n.key) := by omega
+          rw [this]; omega
+        rw [hm, i1, i2, i3, i4]
+        refine ⟨by simp, ?_, by omega, ?_⟩
+        · simp [eraseKeys]
+        · simp only [List.take_succ_cons, List.map_cons, List.sum_cons, hew]; omega
+
+/-- Number of residents that one call of `evict_lru_entries` removes. -/
+def lruCut (p : Params) (s : UState) : Nat :=
+  min (prefLen (weightsToEvict p s) (probWeights s)) EVICTION_BATCH_SIZE
+
+/-- `evict_lru_entries` on an invariant state removes exactly the first `lruCut p s` nodes of
+the recency order and their entries. -/
+theorem evictLru_exact {p : Params} {s : UState} (hi : InvU p s) :
+    (evictLru p s).prob = s.prob.drop (lruCut p s) ∧
+    (evictLru p s).map = eraseKeys s.map ((s.prob.take (lruCut p s)).map (·.key)) := by
+  have hwt : ∀ k e, AL.get? s.map k = some e → e.weight = wOf s k := by
+    intro k e h; simp [wOf, h]
+  obtain ⟨h1, h2, _, _⟩ := evictLruLoop_exact (p := p) (wOf s) EVICTION_BATCH_SIZE s
+    (weightsToEvict p s) 0 0 hi.struct hwt
+  unfold evictLru lruCut probWeights
+  generalize evictLruLoop EVICTION_BATCH_SIZE s (weightsToEvict p s) 0 0 = r at h1 h2 ⊢
+  obtain ⟨s1, c, w⟩ := r
+  simp only [Nat.sub_zero] at h1 h2
+  rw [Nat.min_comm]
+  exact ⟨by simpa using h1, by simpa using h2⟩
+
+/-! ### recency order under hits and updates -/
+
+@[simp] theorem sketchIncrement_map (p : Params) (s : UState) (h : UInt64) :
+    (sketchIncrement p s h).map = s.map := by
+  unfold sketchIncrement; split <;> simp
+
+@[simp] theorem sketchIncrement_prob (p : Params) (s : UState) (h : UInt64) :
+    (sketchIncrement p s h).prob = s.prob := by
+  unfold sketchIncrement; split <;> simp
+
+/-- A hit moves the key to the back of the recency order and keeps the relative order of
+the other residents. -/
+theorem get_hit_prob {p : Params} (hq : NoQuirks p) {s : UState} (hi : InvU p s) (k v : Nat)
+    (hhit : (get p s k).2 = some v) :
+    (get p s k).1.prob.map (·.key) = ((maintain p s).prob.map (·.key)).erase k ++ [k] := by
+  obtain ⟨h1, _, _⟩ := maintain_spec hq hi
+  unfold get at hhit ⊢
+  dsimp only at hhit ⊢
+  generalize maintain p s = s1 at *
+  have hm2 := sketchIncrement_map p s1 (p.hash k)
+  have hp2 := sketchIncrement_prob p s1 (p.hash k)
+  generalize sketchIncrement p s1 (p.hash k) = s2 at *
+  cases hg : AL.get? s2.map k with
+  | none => simp [hg] at hhit
+  | some e =>
+    simp only [hg] at hhit ⊢
+    obtain ⟨id, n, hao, hf, hnk⟩ := h1.struct.aoLink k e (hm2 ▸ hg) (by simp)
+    have hf2 : findAo s2.prob id = some n := by rw [hp2]; exact hf
+    have hkn : (s2.prob.map (·.key)).Nodup := by rw [hp2]; exact prob_keys_nodup h1.struct
+    have key : ∀ ts, (recordHit s2 e ts).prob.map (·.key) =
+        (s1.prob.map (·.key)).erase k ++ [k] := by
+      intro ts
+      rw [recordHit_eq ts hao hf2, keys_touchAo ts hkn hf2, hp2, hnk]
+    cases hts : opTs p s1 with
+    | none => simp only [hts] at hhit ⊢; exact key none
+    | some t =>
+      simp only [hts] at hhit ⊢
+      split
+      · rename_i hx; simp [hx] at hhit
+      · exact key _
+
+/-- An update of a resident key moves it to the back of the recency order and keeps the
+relative order of the other residents. -/
+theorem insert_update_prob {p : Params} (hq : NoQuirks p) {s : UState} (hi : InvU p s) (k v : Nat)
+    {old : UEntry} (hold : AL.get? (maintain p s).map k = some old) :
+    (insert p s k v).prob.map (·.key) = ((maintain p s).prob.map (·.key)).erase k ++ [k] := by
+  obtain ⟨h1, _, _⟩ := maintain_spec hq hi
+  unfold insert
+  dsimp only
+  rw [hold]
+  dsimp only
+  obtain ⟨id, n, _, hf, hnk, heq⟩ := handleUpdate_eq (entry := { val := v, weight := p.weigh k v })
+    h1.struct hold (opTs p (maintain p s)) (p.weigh k v) (opTs_isSome p _)
+  rw [heq]
+  dsimp only
+  have hkn := prob_keys_nodup h1.struct
+  have key := keys_touchAo (s := { maintain p s with map := (AL.put (maintain p s).map k
+      ({ val := v, weight := p.weigh k v, ao := old.ao, wo := old.wo } : UEntry)) })
+    (opTs p (maintain p s)) hkn hf
+  rw [hnk] at key
+  cases old.wo with
+  | none => exact key
+  | some wid =>
+    dsimp only
+    split
+    · exact key
+    · split <;> exact key
+
+/-! ### concrete instances for the non-vacuity examples of `Props/C13.lean`, `Props/C12.lean` -/
+
+namespace Ex
+
+/-- Capacity 2, unit weights. -/
+def cfg2 : Params := { cap := some 2 }
+
+/-- Two residents (1 is the least recently used), key 3 looked up twice, key 4 never seen. -/
+def full2 : UState := runState cfg2 {} [.ins 1 10, .ins 2 20, .get 3, .get 3]
+
+/-- Capacity 3, the weight of an entry is its value. -/
+def cfgW : Params := { cap := some 3, hasWeigher := true, w := fun _ v => v }
+
+/-- Residents 2 (weight 1, LRU), 3 (weight 1), 1 (weight 3 after an update): weighted size 5
+exceeds the capacity 3 by 2. -/
+def overW : UState := runState cfgW {} [.ins 1 1, .ins 2 1, .ins 3 1, .ins 1 3]
+
+/-- Residents 1 (weight 2, LRU) and 2 (weight 1); key 5 looked up three times. -/
+def fullW : UState := runState cfgW {} [.ins 1 2, .ins 2 1, .get 5, .get 5, .get 5]
+
+theorem nq_cfg2 : NoQuirks cfg2 := by unfold NoQuirks; rfl
+
+theorem nq_cfgW : NoQuirks cfgW := by unfold NoQuirks; rfl
+
+theorem small_cfg2 : SmallSketch cfg2 :=
+  ⟨fun c h => by cases h; decide, fun _ _ _ => by show Sketch.sketchCapacity 0 ≤ 2 ^ 27; decide⟩
+
+theorem small_cfgW : SmallSketch cfgW :=
+  ⟨fun c h => by cases h; decide, fun _ _ _ => by show Sketch.sketchCapacity 0 ≤ 2 ^ 27; decide⟩
+
+end Ex
+
 end Unsync
 end MiniMoka
